@@ -39,9 +39,9 @@ fn setup(ctx: &mut Ctx) {
 
 fn strata(t: Tier) -> Vec<Stratum> {
     vec![
-        st("struct-roundtrip", scale(t, 400_000, 40_000_000, 200)),
-        st("file-header", scale(t, 40_000, 2_000_000, 40)),
-        st("link-fields-and-note-header", scale(t, 40_000, 2_000_000, 40)),
+        st("struct-roundtrip", scale(t, 24_000_000, 240_000_000, 200)),
+        st("file-header", scale(t, 2_400_000, 24_000_000, 40)),
+        st("link-fields-and-note-header", scale(t, 2_400_000, 24_000_000, 40)),
         ex("symbol-accessors-exhaustive", scale(t, 256, 256, 2)),
         ex("is-undefined-exhaustive", 1),
         ex("version-index-exhaustive", scale(t, 16, 16, 1)),
